@@ -94,6 +94,13 @@ func (s *syncer) AddChunk(chunk *chunk) (bool, error) {
 	if s.chunks == nil {
 		return false, errors.New("no state sync in progress")
 	}
+	// The app may have rejected this sender (via OfferSnapshot or ApplySnapshotChunk): chunks it
+	// already had in flight must not be used either.
+	if s.snapshots.IsPeerRejected(chunk.Sender) {
+		s.logger.Debug("Ignoring chunk from rejected sender", "height", chunk.Height, "format", chunk.Format,
+			"chunk", chunk.Index, "peer", chunk.Sender)
+		return false, nil
+	}
 	added, err := s.chunks.Add(chunk)
 	if err != nil {
 		return false, err
@@ -386,8 +393,12 @@ func (s *syncer) applyChunks(chunks *chunkQueue) error {
 		// Reject any senders as requested by the app
 		for _, sender := range resp.RejectSenders {
 			if sender != "" {
+				// Hold the lock so that a concurrent AddChunk() either sees the sender as
+				// rejected, or has already queued its chunk and gets it discarded here.
+				s.mtx.Lock()
 				s.snapshots.RejectPeer(p2p.ID(sender))
 				err := chunks.DiscardSender(p2p.ID(sender))
+				s.mtx.Unlock()
 				if err != nil {
 					return fmt.Errorf("failed to reject sender: %w", err)
 				}
